@@ -74,8 +74,10 @@ func sattr(in *In) nfstypes.Sattr3 {
 	if in.SetSz {
 		s.Size = nfstypes.Set_size3{Set_it: true, Size: nfstypes.Size3(in.Size)}
 	}
-	if in.SetTm {
+	if in.SetTm || in.SetMt {
 		s.Mtime = nfstypes.Set_mtime{Set_it: nfstypes.SET_TO_SERVER_TIME}
+	}
+	if in.SetTm || in.SetAt {
 		s.Atime = nfstypes.Set_atime{Set_it: nfstypes.SET_TO_CLIENT_TIME, Atime: nfstypes.Nfstime3{Seconds: 77, Nseconds: 5}}
 	}
 	return s
